@@ -656,5 +656,15 @@ M("x-lock-decorator-without-the-lock", "C13", ["R13.3", "R13.1", "R12.5"], MGR,
   "class ChainManager(Manager):", "def _locked(method):  # type: ignore\n    def wrapper(self, *args, **kwargs):  # type: ignore\n        return method(self, *args, **kwargs)\n    return wrapper\n\n\nclass ChainManager(Manager):",
   MGR, "    def set_coinstate(self, coinstate: CoinState, validated: bool = True) -> None:\n        with self.lock:\n",
   "    @_locked\n    def set_coinstate(self, coinstate: CoinState, validated: bool = True) -> None:\n        if True:\n")
+# D6 (fixed in 2251120): the relay handler links a block's height to its parent's before applying it
+M("x-relay-height-link-dropped", "C20", "R20.14", RP,
+  "            if block.height != previous_block.height + 1:\n", "            if False:\n")
+M("x-relay-height-link-off-by-one", "C20", "R20.14", RP,
+  "            if block.height != previous_block.height + 1:\n", "            if block.height < previous_block.height + 1:\n")
+M("x-relay-height-link-after-apply", "C20", ["R20.14", "R09.3", "R09.4", "R09.7"], RP,
+  "            coinstate_changed = coinstate_prior.add_block_no_validation(block)\n            self.local_peer.disk_interface.save_block(block)\n",
+  "            coinstate_changed = coinstate_prior.add_block_no_validation(block)\n            self.local_peer.disk_interface.save_block(block)\n"
+  "            if block.height != previous_block.height + 1:\n                return\n",
+  RP, "            if block.height != previous_block.height + 1:\n                # Checked here", "            if False:\n                # Checked here")
 M("x-set-coinstate-default-flipped", "C01", "R13.6", MGR,
   "    def set_coinstate(self, coinstate: CoinState, validated: bool = True) -> None:", "    def set_coinstate(self, coinstate: CoinState, validated: bool = False) -> None:")
